@@ -392,7 +392,7 @@ func (g *gen) genExprCase(t *rapid.T) Case {
 	if rapid.IntRange(0, 2).Draw(t, "scoped") == 0 {
 		c = g.addScope(t, c)
 	}
-	return c
+	return respell(t, c)
 }
 
 func (g *gen) genExprCase0(t *rapid.T) Case {
@@ -664,7 +664,7 @@ func (g *gen) genPipeCase(t *rapid.T) Case {
 	init := pick(t, "init", pipeInits)
 	n := pick(t, "len", []int{1, 2, 2, 3, 3})
 	st, final := g.chain(t, env, init, n, true)
-	return pipeCase(envID, init, st, final)
+	return respell(t, pipeCase(envID, init, st, final))
 }
 
 // ---------------------------------------------------------------- family C: errors
@@ -841,6 +841,16 @@ func classify(c Case) (bool, []string) {
 	cls := []string{"fam=" + c.Fam, fmt.Sprintf("env=%d", c.Env)}
 	for _, p := range c.Pos {
 		cls = append(cls, "pos="+p)
+	}
+	if c.Fam == "expr" || c.Fam == "pipe" {
+		sp := c.Spell
+		if sp == "" {
+			sp = "documented"
+		}
+		cls = append(cls, "spelling="+sp)
+		if c.Fam == "expr" && c.Spell != "" && c.E.K == "tern" && !hasBin(*c.E) {
+			cls = append(cls, "A:operator-free ternary respelled")
+		}
 	}
 	if len(c.Scope) > 0 {
 		cls = append(cls, fmt.Sprintf("A:scope depth=%d", len(c.Scope)), "A:scope var-type="+scopeVars[c.Scope[0].Var])
@@ -1066,4 +1076,14 @@ func sigClasses(f *fnSpec, nargs int) []string {
 		cls = append(cls, "S:fixed-"+f.params[i])
 	}
 	return cls
+}
+
+func hasBin(e Expr) bool {
+	r := false
+	e.walk(func(x Expr, _ int) {
+		if x.K == "bin" {
+			r = true
+		}
+	})
+	return r
 }
